@@ -564,6 +564,11 @@ func Run(p Property, opt Options) (*Stats, error) {
 		st.Evaluations++
 		st.Kinds[c.Kind]++
 		st.Classes[out.Class]++
+		if dc := os.Getenv("VERIF_DUMP_CLASS"); dc != "" && strings.Contains(out.Class, dc) {
+			// debugging aid: print the cases of an outcome class (replayable JSON, one per line)
+			b, _ := json.Marshal(map[string]interface{}{"class": out.Class, "case": c})
+			fmt.Fprintln(os.Stderr, "DUMP-CLASS "+string(b))
+		}
 		st.SizeHist[sizeBucket(c)]++
 		for _, ck := range out.Checks {
 			st.ChecksRun++
